@@ -33,6 +33,18 @@ def make(kind, n):
     if kind == 'dict':
         keys = [f'k{i:03d}' for i in range(n)]
         return lazy_dataset.new({k: ('s', i) for i, k in enumerate(keys)}), keys
+    if kind == 'permuted':
+        # a selection that covers a gap-free index range, starts at its minimum and ends at its maximum, but is NOT
+        # sorted (inner neighbours swapped): what a "contiguous range" shortcut must not mistake for a range
+        keys = [f'k{i:03d}' for i in range(n)]
+        order = list(range(n))
+        for j in range(1, n - 2, 2):
+            order[j], order[j + 1] = order[j + 1], order[j]
+        # values are numbered in selection order (so the partition predicate applies), keys follow the examples
+        inv = {src: pos for pos, src in enumerate(order)}
+        base = lazy_dataset.new({keys[src]: ('s', inv[src]) for src in range(n)})
+        ds = base[np.array(order, dtype=np.int64)] if n else base
+        return ds, [keys[src] for src in order]
     if kind == 'derived':
         # a mapped, concatenated and re-sliced dict dataset: split works on any indexable dataset
         a = n // 3
@@ -158,7 +170,26 @@ def check_one(kind, n, k, full=True):
     return sizes
 
 
+def check_big(n, k):
+    import lazy_dataset
+    ds = lazy_dataset.new(list(range(n)))
+    shards = ds.split(k)
+    sizes = [len(s) for s in shards]
+    flat = [x for s in shards for x in s]
+    if len(shards) != k or flat != list(range(n)):
+        lost = sorted(set(range(n)) - set(flat))
+        raise Violation('not-a-partition', f'list n={n} k={k}: {len(flat)} of {n} examples in the shards; missing '
+                                           f'{lost[:5]}...; sizes {sizes[:5]}...')
+    if max(sizes) - min(sizes) > 1 or sum(sizes) != n:
+        raise Violation('unbalanced', f'list n={n} k={k}: sizes {sizes[:8]}...')
+    for i in (0, k // 2, k - 1):
+        if list(ds.shard(k, i)) != list(shards[i]):
+            raise Violation('shard-vs-split', f'list n={n} k={k} i={i}')
+
+
 def run_case(case):
+    if case.get('big'):
+        return check_big(case['n'], case['k'])
     try:
         return check_one(case['kind'], case['n'], case['k'], case.get('full', True))
     except Violation:
@@ -227,8 +258,8 @@ def run_shard(tier, idx, nshards, rec, known):
     for n in range(nmax + 1):
         if n % nshards != idx:
             continue
-        for kind in ('list', 'dict', 'derived'):
-            if kind == 'derived' and n > 60:
+        for kind in ('list', 'dict', 'derived', 'permuted'):
+            if kind in ('derived', 'permuted') and n > 60:
                 continue
             for k in range(-1, n + 3):
                 case = {'kind': kind, 'n': n, 'k': k, 'full': True}
@@ -252,6 +283,18 @@ def run_shard(tier, idx, nshards, rec, known):
                 rec.case(shown, nt, cls, size=n)
                 if sizes is not None:
                     rec.extra['shards_checked'] = rec.extra.get('shards_checked', 0) + k
+    # large n * k products (shortcuts for "many sections of a long dataset"): the partition predicate only
+    if idx == 2 % nshards:
+        for n, k in ((20000, 1000), (70000, 300), (5000, 4999), (4097, 4096)) + (
+                ((200000, 100), (33000, 33000)) if tier == 'thorough' else ()):
+            case = {'kind': 'list', 'n': n, 'k': k, 'full': False, 'big': True}
+            try:
+                check_big(n, k)
+            except Violation as v:
+                if not known.match(v.sig):
+                    out.violation = (case, v.sig, v.detail)
+                    return [out]
+            rec.case(case, True, ['valid', 'big-product'], size=n)
     progcheck.setup_process()
 
     def one(case):
